@@ -34,6 +34,7 @@ CANARIES = {
         ("extra-required", "stix2/v21/sdo.py", "bool-flip", ["Indicator", "True -> False", "default=lambda: False"], "C03.table"),
         ("vocabulary-entry-lost", "stix2/v21/vocab.py", "drop-list-element", ["OPINION_AGREE", "OPINION_"], "C03.table"),
         ("empty-string-means-absent", "stix2/base.py", "text", ["if prop_val not in (None, []):", "if prop_val not in (None, [], ''):"], "C03.absent-values"),
+        ("named-argument-by-truthiness", "stix2/v21/common.py", "text", ["if statement is not None and kwargs.get('statement') is None:", "if statement and not kwargs.get('statement'):"], "C03.absent-values"),
     ],
     "C04": [
         ("hard-coded-true", "stix2/properties.py", "kw-true", ["ListProperty.clean", "allow_custom=True", "self.contained("], "C04.forward"),
